@@ -66,7 +66,7 @@ func DrawSpecConfig(r *Rng, genNames []string, base string) SpecConfig {
 }
 
 var modPaths = []string{"example.com/m", "m", "github.com/a-b/c.d/v2", "example.com/deep/mod-x"}
-var goVers = []string{"1.18", "1.21", "1.22.0", "1.23", "1.24", "1.24.2"}
+var goVers = []string{"1.18", "1.21", "1.22.0", "1.23", "1.24", "1.24.2", "1.21rc1"}
 
 // directories; two pairs share their last path segment (x/model, y/model and a list next to
 // container/list) so that import names have to be disambiguated
